@@ -3,11 +3,12 @@
 # Applies the patch in a scratch worktree of /repo HEAD (never in /repo), runs the checks against it, removes the worktree.
 # Evidence and replays of these runs go to a scratch directory, not to /verif. Prints one summary line per check.
 P="$1"; shift
+HERE="$(cd "$(dirname "$0")/.." && pwd)"
 WT=$(mktemp -d /tmp/mutant-wt-XXXXXX); rmdir "$WT"
 git -C /repo worktree add -q --detach "$WT" HEAD || exit 2
 ( cd "$WT" && { git apply "$P" 2>/dev/null || git apply -3 "$P" 2>/dev/null || patch -s -p1 --no-backup-if-mismatch < "$P"; } ) || { echo "PATCH DOES NOT APPLY"; git -C /repo worktree remove --force "$WT"; exit 2; }
 OUT=$(mktemp -d /tmp/mutant-out-XXXXXX)
-cd /verif
+cd "$HERE"
 for id in "$@"; do
   VERIF_REPO="$WT" VERIF_OUT="$OUT" ./check "$id" --tier "${TIER:-quick}" > "$OUT/$id.log" 2>&1
   rc=$?
